@@ -60,11 +60,11 @@ def reference_invalid(pe: bool, pc: bool, pu: bool, pl: bool) -> bool:
     timeout=400,
     kernel=K,
     shims=("S1", "S2", "S3", "S4"),
-    symbolic="presence of entity_id/create_if/update_if/label (4 symbolic booleans = all 16 combinations); each expression 2 symbolic characters",
+    symbolic="presence of entity_id/create_if/update_if/label (4 symbolic booleans = all 16 combinations), a custom namespaces setting present (boolean); each expression 2 symbolic characters",
     bounds="one-question form + entities sheet with dataset 'ds'; expressions length 2 over U+0021-U+007E minus '$'",
     weight=100,
 )
-def c19_table(pe: bool, pc: bool, pu: bool, pl: bool, e0: int, e1: int, c0: int, c1: int, u0: int, u1: int, l0: int, l1: int) -> bool:
+def c19_table(pe: bool, pc: bool, pu: bool, pl: bool, with_ns: bool, e0: int, e1: int, c0: int, c1: int, u0: int, u1: int, l0: int, l1: int) -> bool:
     """
     pre: 33 <= e0 <= 126 and e0 != 36 and 33 <= e1 <= 126 and e1 != 36
     pre: 33 <= c0 <= 126 and c0 != 36 and 33 <= c1 <= 126 and c1 != 36
@@ -83,6 +83,8 @@ def c19_table(pe: bool, pc: bool, pu: bool, pl: bool, e0: int, e1: int, c0: int,
     if pl:
         ent["label"] = L
     wb = {"survey": [{"type": "text", "name": "q1", "label": "L1"}], "entities": [ent]}
+    if with_ns:
+        wb["settings"] = [{"namespaces": 'ex="http://example.org/x"'}]
     invalid = reference_invalid(pe, pc, pu, pl)
     try:
         survey, _w, _js = build_survey(wb)
@@ -93,6 +95,8 @@ def c19_table(pe: bool, pc: bool, pu: bool, pl: bool, e0: int, e1: int, c0: int,
         return False
     # namespace + version declared
     if root.getAttribute("xmlns:entities") != ENT_NS:
+        return False
+    if with_ns and root.getAttribute("xmlns:ex") != "http://example.org/x":
         return False
     model = elements(root, "model")[0]
     if model.getAttribute("entities:entities-version") != ENT_VERSION:
@@ -174,9 +178,17 @@ def c19_saveto(kind: int, n: int, has_entities: bool, s0: int, s1: int, s2: int)
     elif kind == 3:  # on a group row
         rows = [{"type": "begin group", "name": "g", "label": "G", "save_to": P}, q, {"type": "end group"}, other]
         target = None
-    else:  # on a repeat row
+    elif kind == 4:  # on a repeat row
         rows = [{"type": "begin repeat", "name": "r", "label": "R", "save_to": P}, q, {"type": "end repeat"}, other]
         target = None
+    elif kind == 5:  # question in a group nested in a repeat
+        q["save_to"] = P
+        rows = [{"type": "begin repeat", "name": "r", "label": "R"}, {"type": "begin group", "name": "g", "label": "G"}, q, {"type": "end group"}, {"type": "end repeat"}, other]
+        target = None
+    else:  # question in a repeat nested in a group, after a closed repeat
+        q["save_to"] = P
+        rows = [{"type": "begin group", "name": "g", "label": "G"}, {"type": "begin repeat", "name": "r", "label": "R"}, other, {"type": "end repeat"}, q, {"type": "end group"}]
+        target = "/data/g/q1"
     wb = {"survey": rows}
     if has_entities:
         wb["entities"] = [{"dataset": "ds", "label": "a"}]
@@ -214,7 +226,7 @@ specialise(
     "C19",
     "b.saveto",
     c19_saveto,
-    {"kind": [0, 1, 2, 3, 4], "n": [3]},
+    {"kind": [0, 1, 2, 3, 4, 5, 6], "n": [3]},
     tiers=("thorough",),
     timeout=2400,
     kernel=K,
@@ -227,12 +239,12 @@ specialise(
     "C19",
     "b.saveto",
     c19_saveto,
-    {"kind": [0, 1, 2, 3, 4], "n": [2]},
+    {"kind": [0, 1, 2, 3, 4, 5, 6], "n": [2]},
     timeout=400,
     kernel=K,
     shims=("S1", "S2", "S3", "S4"),
     symbolic="save_to cell of 2 symbolic characters; entities sheet present (boolean)",
-    bounds="row kind fixed per instance: question / question in group / question in repeat / group row / repeat row; property name length 2 over U+0021-U+007E minus '$'",
+    bounds="row kind fixed per instance: question / question in group / question in repeat / group row / repeat row / question in group inside repeat / question after a closed repeat inside a group; property name length 2 over U+0021-U+007E minus '$'",
     weight=80,
 )
 
